@@ -32,7 +32,7 @@ RULE = (
     "a dispatch that does not extend the makespan and a dispatch that creates "
     "positive idle time both occur."
 )
-BUDGET = {"quick": 800, "thorough": 4000}
+BUDGET = {"quick": 800, "thorough": 6000}
 ASSUMPTIONS = [
     "idle time of a machine = sum of gaps between consecutive operations on it plus the start of its first operation (up to its last operation)",
 ]
